@@ -259,7 +259,7 @@ let run_script do_simp fuel f s =
 (** val atomic : bool **)
 
 let atomic =
-  false
+  true
 
 (** val lookahead_polls : bool **)
 
